@@ -7,6 +7,10 @@ namespace HipVerif.Slots
 
 inductive Op where
   | push | tryPush | pop
+  /-- `pop_if(|_| ans)`, the predicate being a fault point -/
+  | popIf (ans : Bool)
+  /-- `FromIterator::from_iter` into a temporary vector that is dropped afterwards -/
+  | fromIter (hint n : Nat)
   | insert (i : Nat) | tryInsert (i : Nat) | remove (i : Nat) | swapRemove (i : Nat)
   | truncate (n : Nat) | clear | resize (n : Nat) | resizeWith (n : Nat)
   | extSlice (n : Nat) | extWithin (a b : Nat) | extIter (hint n : Nat)
@@ -24,6 +28,8 @@ def iStep : Op → St → Ret × St
   | .push, s => iPush s
   | .tryPush, s => iTryPush s
   | .pop, s => iPop s
+  | .popIf b, s => iPopIf b s
+  | .fromIter h n, s => liftB (iFromIter h n s)
   | .insert i, s => iInsert i s
   | .tryInsert i, s => iTryInsert i s
   | .remove i, s => iRemove i s
@@ -34,7 +40,7 @@ def iStep : Op → St → Ret × St
   | .resizeWith n, s => liftB (iResizeWith n s)
   | .extSlice n, s => liftB (iExtSlice n s)
   | .extWithin a b, s => liftB (iExtWithin a b s)
-  | .extIter _ n, s => liftB (iExtIter n s)
+  | .extIter _ n, s => liftB (iExtend n s)
   | .clone, s => liftB (iClone s)
   | .append n, s => liftB (iAppend n s)
   | .splitOff a, s => liftB (iSplitOff a s)
@@ -50,6 +56,8 @@ def tStep : Op → St → Ret × St
   | .push, s => tPush s
   | .tryPush, s => (.na, s)
   | .pop, s => iPop s
+  | .popIf _, s => (.na, s)
+  | .fromIter h n, s => liftB (tFromIter h n s)
   | .insert i, s => tInsert i s
   | .tryInsert _, s => (.na, s)
   | .remove i, s => iRemove i s
@@ -60,7 +68,7 @@ def tStep : Op → St → Ret × St
   | .resizeWith _, s => (.na, s)
   | .extSlice n, s => liftB (tExtSlice n s)
   | .extWithin a b, s => liftB (tExtWithin a b s)
-  | .extIter h n, s => liftB (tExtIter h n s)
+  | .extIter h n, s => liftB (tExtend h n s)
   | .clone, s => liftB (tClone s)
   | .append n, s => liftB (tAppend n s)
   | .splitOff a, s => liftB (tSplitOff a s)
